@@ -36,8 +36,9 @@ sensitivity)
         [ -z "$checks" ] && { echo "$id: not expected to be caught (see meta.json)"; continue; }
         (cd "$REPO" && git diff --quiet) || { echo "repo dirty"; exit 2; }
         (cd "$REPO" && git apply "$VERIF_DIR/$d/patch.diff") || { echo "$id: patch does not apply"; fail=1; continue; }
+        tier=$(python3 -c "import json,sys; print(json.load(open(sys.argv[1])).get('tier','quick'))" "$d/meta.json")
         for c in $checks; do
-            ./v check "$c" quick >/dev/null 2>&1; rc=$?
+            ./v check "$c" "$tier" >/dev/null 2>&1; rc=$?
             if [ $rc -eq 1 ]; then echo "$id: caught by $c"; else echo "$id: MISSED by $c (rc=$rc)"; fail=1; fi
         done
         (cd "$REPO" && git reset -q --hard HEAD && git clean -fdq -- src tests build.rs)
